@@ -26,6 +26,10 @@ func dispatchMore(mode string, lines []string) bool {
 	case "decomp":
 		runDecomp(lines)
 		return true
+	case "attmem":
+		runAttMem(lines)
+		runSeqMem(lines)
+		return true
 	case "writerep":
 		runWriteRep(lines)
 		return true
